@@ -177,6 +177,10 @@ func Log(ctx *expr.Context, input system.Collection, args ...expr.Expression) (s
 	if err != nil {
 		return nil, err
 	}
+	// An empty base yields empty.
+	if argValues.IsEmpty() {
+		return system.Collection{}, nil
+	}
 	base, err := argValues.ToFloat64()
 	if err != nil {
 		return nil, err
@@ -206,6 +210,10 @@ func Power(ctx *expr.Context, input system.Collection, args ...expr.Expression) 
 	argValues, err := args[0].Evaluate(ctx, input)
 	if err != nil {
 		return nil, err
+	}
+	// An empty exponent yields empty.
+	if argValues.IsEmpty() {
+		return system.Collection{}, nil
 	}
 	// Validating integers case
 	_, ok := input[0].(system.Integer)
